@@ -228,6 +228,7 @@ def impl_canonical(c, st, t):
     d["ITEMS"] = ",".join("%s:%s" % (x.split(":")[0][1:], x.split(":")[1]) for x in (st["items"] or []))
     d["BITEMS"] = ",".join("s" if x == "<script>" else x[1:] for x in (st["bitems"] or []))
     if d["err"] == "1":
+        d["XERR"] = "".join(fmt_num(st["cv"].get("v%d" % v, [float("nan")])[0]) + "," for v in range(len(c["vars"])))
         return d
     z = c["steps"][t]["z"]
     ev, cvc = [], []
@@ -347,6 +348,12 @@ def tie_part(run, r, model, sim, cases, d):
             if not ok:
                 run.violation("smp-vs-serial:error-class", "step %d reports err=%s serially and err=%s under schedule %s" % (
                     nerr, ssteps[nerr]["err"], isteps[nerr]["err"] if len(isteps) > nerr else "<none>", c["smp"]), rep)
+            cva = [isteps[nerr]["cv"].get("v%d" % v) for v in range(len(c["vars"]))] if len(isteps) > nerr else None
+            cvb = [ssteps[nerr]["cv"].get("v%d" % v) for v in range(len(c["vars"]))]
+            if ok and cva != cvb:
+                run.violation("error-step:serial-returns-early",
+                              "step %d raises `all CVCs are disabled`; afterwards the variables hold %s under schedule %s but %s under smp serial (the serial path returns at the failing variable, the SMP path finishes the step); config:\n%s" % (
+                                  nerr, cva, c["smp"], cvb, "\n".join(tcase_config(c))), rep)
             cut = lambda L: L[:[i for i, l in enumerate(L) if l.startswith("STEP")][nerr]]
             a, b = cut(a), cut(b)
         df = first_diff(a, b)
@@ -373,6 +380,9 @@ def tie_part(run, r, model, sim, cases, d):
                 if ic.get("err") == "1" or mc.get("err") == "1":
                     if ic.get("err") != mc.get("err"):
                         run.mismatch("error-class", {"case": c, "which": which, "step": t}, ic, mc)
+                    elif ic.get("XERR") != mc.get("XERR"):
+                        # variable values right after the failing step (serial: early return; SMP: the step is finished)
+                        run.mismatch("error-step", {"case": c, "which": which, "step": t}, ic.get("XERR"), mc.get("XERR"))
                     break
                 bad = [q for q in mc if ic.get(q) != mc[q]]
                 if bad:
@@ -1246,6 +1256,33 @@ def witness_tcases():
     return [c]
 
 
+def error_step_witness():
+    """SmpProofs.error_step_paths_differ: two variables, `cvcflags 0` on the first: serially the second keeps its old value"""
+    perm = list(range(NPERM))
+    return {"id": 100010, "vars": [{"tsf": 1, "coeff": [1]}, {"tsf": 1, "coeff": [1]}], "biases": [], "use_script": False, "after": False, "script": [],
+            "steps": [{"flags": [], "z": [[101], [102]], "perm": perm, "nt": 1, "assign": []},
+                      {"flags": [(0, [0])], "z": [[201], [202]], "perm": perm, "nt": 2, "assign": []}], "smp": "perm"}
+
+
+def gen_alternating(r, k):
+    """variables with different timeStepFactor (2 and 3, sometimes a third with 1): the SET of active variables changes while the
+    NUMBER of work items often stays the same (steps 2 -> 3, 8 -> 9): the item list must be rebuilt from the active set at every step"""
+    c = gen_tcase(r, k)
+    nc = r.choice([1, 1, 2])
+    vars_ = [{"tsf": 2, "coeff": [r.choice([1, 2, -1]) for _ in range(nc)]}, {"tsf": 3, "coeff": [r.choice([1, 2, -1]) for _ in range(nc)]}]
+    if r.random() < 0.4:
+        vars_.append({"tsf": 1, "coeff": [1]})
+    biases = [{"tsf": x["tsf"], "vars": [v], "k": r.randint(1, 3), "centers": [r.randint(-2, 2)]} for v, x in enumerate(vars_)]
+    steps = []
+    for t in range(r.randint(7, 10)):
+        perm = list(range(NPERM))
+        r.shuffle(perm)
+        nt = r.choice([1, 2, 3])
+        steps.append({"flags": [], "z": [[100 * (t + 1) + r.randint(-40, 40) for _ in x["coeff"]] for x in vars_], "perm": perm, "nt": nt, "assign": []})
+    c.update({"vars": vars_, "biases": biases, "use_script": False, "after": False, "script": [], "steps": steps})
+    return c
+
+
 def load_corpus():
     out = []
     cp = os.path.join(V.ROOT, "corpus", "C12_cases.txt")
@@ -1293,7 +1330,7 @@ def check(run):
         "an execution is modelled as an interleaving of atomic items; finer-grained interleavings of the real threads are covered by the footprint argument, not by a theorem about the C++ memory model",
     ]
     d = V.scratch("C12")
-    gen = [gen_tcase(r, k) for k in range(200 if quick else 4000)]
+    gen = [gen_alternating(r, k) if k % 8 == 3 else gen_tcase(r, k) for k in range(200 if quick else 4000)]
     rc = [gen_rcase(r, k) for k in range(50 if quick else 1200)]
     # footprints derived from the rebuilt binary -> coq/Gen/GenFootC12.v, BEFORE the proofs are checked
     derived, rich = [], []
@@ -1329,7 +1366,7 @@ def check(run):
                 break
 
     # witness of the (repaired) item-list defect and corpus first, then generated cases
-    tc = witness_tcases() + load_corpus() + gen
+    tc = witness_tcases() + [error_step_witness()] + load_corpus() + gen
     B = 200
     for b0 in range(0, len(tc), B):
         tie_part(run, r, model, sim, tc[b0:b0 + B], d)
